@@ -449,6 +449,15 @@ class Engine:
             wins.append(C.make_window(i, p, ln, sw, ch))
         wins += [b"\x00" * (bsz * sw * ch), b"\x00" * (sw * ch),
                  C.make_window(1, 1, 2 * bsz + 1, sw, ch)]
+        if sc["nwin2"] % 4 == 0:
+            # long windows (>= 1024 samples) of different lengths whose
+            # energy sits exactly at / just around the threshold
+            def const(a, n):
+                return (bytes([a]) + b"\x00" * (sw - 1)) * (n * ch)
+            wins = [const(10, 1600), const(10, 1120), const(10, 1024),
+                    const(9, 2000), const(10, 3000), const(11, 1100),
+                    const(10, 1500), const(9, 1030)] + wins[:4]
+            out["probes"]["validator_long_windows"] = 1
         if any(len(w_) != len(wins[0]) for w_ in wins):
             out["probes"]["validator_window_lengths_vary"] = 1
         uc = [None, "mix", 0, -1][sc["history"][0][1] % 4]
